@@ -2745,6 +2745,11 @@ impl Node {
         }
         if fulfilled {
             trace_node_state!(state);
+            // the preimages are part of the node entry: they decide which HTLC outputs of a
+            // force-closed channel are ours, so a restart must not forget them
+            self.persister
+                .update_node(&self.get_id(), &*state)
+                .expect("node persistence failure");
         }
     }
 
